@@ -177,6 +177,60 @@ def dynamic_table_writers() -> Dict[str, List[str]]:
     return {k: sorted(v) for k, v in seen.items()}
 
 
+def dynamic_clears(caches: List[str]) -> Dict[str, List[str]]:
+    """Which caches a declaring call leaves filled, by experiment: every cache is filled by a query,
+    then equate / translate is called for a NEW pair and again for the SAME pair with another value
+    (a correction of an earlier declaration), and what is still in each cache is looked at.  The AST
+    sees that a function calls cache_clear(), not under which condition."""
+    from measured import Length, conversions
+
+    left: Dict[str, set] = {"equate": set(), "translate": set()}
+
+    def filled(name: str) -> bool:
+        obj = getattr(conversions, name, None)
+        if obj is None:
+            return False
+        if hasattr(obj, "cache_info"):
+            return obj.cache_info().currsize > 0
+        try:
+            return len(obj) > 0
+        except TypeError:
+            return False
+
+    def query(x: Any, y: Any) -> None:
+        try:
+            conversions.convert(1 * x, y)
+        except Exception:
+            pass
+
+    a, b, c, d = (Length.unit(f"c08-clr-{i}", f"c08clr{i}") for i in "abcd")
+    saved = (conversions._ratios, conversions._offsets)
+    from collections import defaultdict
+
+    conversions._ratios, conversions._offsets = defaultdict(dict), defaultdict(dict)
+    try:
+        for writer, first, again in (
+                ("equate", lambda: conversions.equate(1 * a, 2 * b), lambda: conversions.equate(1 * a, 3 * b)),
+                ("translate", lambda: conversions.translate(c, 5 * d), lambda: conversions.translate(c, 7 * d))):
+            for call in (first, again):
+                query(a, b)
+                query(c, d)
+                try:
+                    call()
+                except Exception:
+                    continue
+                left[writer] |= {n for n in caches if filled(n)}
+    finally:
+        conversions._ratios, conversions._offsets = saved
+        for n in caches:
+            obj = getattr(conversions, n, None)
+            if hasattr(obj, "cache_clear"):
+                obj.cache_clear()
+            elif hasattr(obj, "clear"):
+                obj.clear()
+    return {k: sorted(v) for k, v in left.items()}
+
+
 def machine() -> Dict[str, Any]:
     info = analyse(CONV)
     memo_tables = info.pop("__memo_tables__")["names"]
@@ -211,6 +265,11 @@ def machine() -> Dict[str, Any]:
         raise symnum.HarnessError(f"the declaration tables are written outside equate/translate and outside "
                                   f"the query path: {sorted(set(stray) - set(query_writes))}")
     clears = {w: sorted(info[w]["clears"]) for w in writers}
+    # a clear the AST sees may be conditional: what an experiment finds still filled is not cleared
+    kept = dynamic_clears(sorted(set(cache_of.values())))
+    conditional = {w: [c for c in clears[w] if c in kept.get(w, [])] for w in writers}
+    # (the history model keeps the clears as read; the situations in which they do not happen are
+    # turned into histories of their own in main)
     known = {"_find_path", "_plan_conversion"}
     # any other cached reader of the tables gets the generic stale-row model (search_generic)
     generic = sorted(set(cached) - known)
@@ -230,6 +289,7 @@ def machine() -> Dict[str, Any]:
     cleared = lambda fn, w: cache_of.get(fn) in clears[w]
     return {"cached": cached, "writers": writers, "clears": clears, "cache_of": cache_of,
             "memo_tables": memo_tables, "query_writes_tables": query_writes,
+            "clears_seen_in_the_source_but_not_in_every_situation": conditional,
             "explicit_memo": sorted(n for n in cached if cache_of[n] != n),
             "generic_caches": generic,
             "generic_cleared": {c: {w: cleared(c, w) for w in writers} for c in generic},
@@ -847,6 +907,19 @@ def main(tier: str, selftest_cases: int = 0) -> int:
     if mc["generic_caches"]:
         query_interference(rep, mc)
     memo_value_audit(rep)
+    # a declaring call that leaves a cache filled in some situation (found by experiment: a new pair
+    # against a pair declared before): the history that would show a stale answer is replayed
+    for w, kept in mc.get("clears_seen_in_the_source_but_not_in_every_situation", {}).items():
+        name = f"{w} empties {mc['clears'].get(w)} in every situation tried (new pair, pair declared before)"
+        if not kept:
+            rep.ob("unsat", name, ("conditional-clear", w))
+            continue
+        op = "declare" if w == "equate" else "translate"
+        h = [(op, 0, 1, 2), ("query", 0, 1), (op, 0, 1, 3), ("query", 0, 1)]
+        rep.ob("sat", name + f": {kept} stays filled", ("conditional-clear", w))
+        rep.violation(f"C08:stale-after-redeclaration:{w}", f"history {h}: {w} leaves {kept} filled when the pair was "
+                      f"declared before; the corrected declaration is not used by the next conversion",
+                      replay(h), soft=True)
     construction_order(rep, tier)
     # memoised functions may only conflate calls they cannot tell apart (engine/memokeys.py)
     from engine import memokeys
